@@ -30,7 +30,7 @@ ANCHORS = []
 WORKERS = {"quick": 12, "thorough": 16}
 WATCHDOG = {"quick": 1200, "thorough": 3400}
 REQUIRED = {"pair:A-has-resonance-B-lacks": 5, "pair:A-cartesian-B-not": 3, "pair:crossing-reader-classes": 5, "hash-seeds>=2": 1, "exact-reproducibility-run": 2,
-            "history-length>=3": 2, "failed-cartesian-read-then-polar-file": 5, "file-converted-again-after-another": 2, "same-bare-resonance-name-different-sub-lines": 2, "fresh-single-runs": 10, **{f"entry:{e}": 3 for e in ENTRIES}, "across-hash-seeds-compared": 3, "all-ordered-file-pairs": 1}
+            "history-length>=3": 2, "failed-cartesian-read-then-polar-file": 5, "printing-conversion-with-colours-after-a-returning-one": 2, "file-converted-again-after-another": 2, "same-bare-resonance-name-different-sub-lines": 2, "fresh-single-runs": 10, **{f"entry:{e}": 3 for e in ENTRIES}, "across-hash-seeds-compared": 3, "all-ordered-file-pairs": 1}
 EXHAUSTIVE_NOTE = "all 36 ordered pairs of pool files are run in every tier (entry points rotated over the 25 ordered entry pairs); all ordered triples of 3 files in thorough"
 ASSUMPTIONS = ["inside the fresh interpreters the pure name lookup is memoised per (name, particle-table size); the library's one-time loading of the special particles happens inside each history",
                "the parent cannot instrument the child interpreters with sys.monitoring: anchors are not traced for this property (results are observed at the process boundary)"]
@@ -82,9 +82,12 @@ def write_pool(workdir):
     return models
 
 
-def run_history(workdir, hist, hashseed, timeout=900):
+def run_history(workdir, hist, hashseed, timeout=900, color=False):
     env = core.child_env()
     env["PYTHONHASHSEED"] = str(hashseed)
+    env.pop("FORCE_COLOR", None)
+    if color:
+        env["FORCE_COLOR"] = "1"       # histories with a printing conversion run the way a terminal user sees them: colours on (their single-call references too)
     r = subprocess.run([sys.executable, "-m", "vmon.c20_runner", workdir, json.dumps(hist)], capture_output=True, text=True, env=env, timeout=timeout, cwd=core.VERIF)
     if r.returncode != 0:
         raise core.Inconclusive(f"runner failed rc={r.returncode}: {r.stderr[-500:]}")
@@ -155,12 +158,12 @@ class Runner:
         self.ctx, self.workdir, self.models = ctx, workdir, models
         self.fresh = {}
 
-    def single(self, f, e, seed):
-        key = (f, e, seed)
+    def single(self, f, e, seed, color=False):
+        key = (f, e, seed, color)
         if key not in self.fresh:
             # single-call results are shared between the workers of one run through files in the run directory
             shared = os.environ.get("VMON_RUN_DIR")
-            path = os.path.join(shared, f"c20-single-{f}-{e}-{seed}.json") if shared else None
+            path = os.path.join(shared, f"c20-single-{f}-{e}-{seed}{'-color' if color else ''}.json") if shared else None
             res = None
             if path and os.path.exists(path):
                 try:
@@ -171,7 +174,7 @@ class Runner:
                     res = None
             if res is None:
                 self.ctx.hit("fresh-single-runs")
-                res = run_history(self.workdir, [[f, e]], seed)[0]
+                res = run_history(self.workdir, [[f, e]], seed, color=color)[0]
                 if path:
                     tmp = path + f".{os.getpid()}.tmp"
                     with open(tmp, "w") as fh:
@@ -191,6 +194,8 @@ class Runner:
             ctx.hit("history-length>=3")
         if len(hist) == 3 and hist[0] == hist[2] and hist[0][0] != hist[1][0]:
             ctx.hit("file-converted-again-after-another")
+        if any(e.endswith("_print") for _, e in hist[1:]):
+            ctx.hit("printing-conversion-with-colours-after-a-returning-one")
         if hist[0][0] == POISON and len(hist) >= 2:
             ctx.hit("failed-cartesian-read-then-polar-file")
         dn = [f for f, _ in hist if f in (0, 5)]
@@ -201,13 +206,14 @@ class Runner:
                 ctx.hit("pair:A-has-resonance-B-lacks")
             if self.models[fa]["cartesian"] == 1 and not self.models[fb]["cartesian"]:
                 ctx.hit("pair:A-cartesian-B-not")
-            cls = {"read": "A", "cpp": "C", "read_cpp": "C", "py": "P", "read_py": "P"}
+            cls = {"read": "A", "cpp": "C", "read_cpp": "C", "py": "P", "read_py": "P", "cpp_print": "C", "py_print": "P"}
             if cls[ea] != cls[eb]:
                 ctx.hit("pair:crossing-reader-classes")
-        results = run_history(self.workdir, hist, seed)
+        color = any(e.endswith("_print") for _, e in hist)
+        results = run_history(self.workdir, hist, seed, color=color)
         ctx.mon("C20.call_in_history_equals_fresh_single_call")
         for i, ((f, e), res) in enumerate(zip(hist, results)):
-            ref = self.single(f, e, seed)
+            ref = self.single(f, e, seed, color)
             if "raised" in res or "raised" in ref:
                 if res.get("raised") != ref.get("raised"):
                     ctx.violate("history:raises-differently:" + e, f"step {i} {(f, e)}: in history {res.get('raised')!r}, fresh {ref.get('raised')!r}", {**wit, "step": i})
@@ -269,6 +275,9 @@ def run(ctx):
         for i, e in enumerate(ENTRIES):
             jobs.append(([[POISON, e], [[0, 1, 5][i % 3], e]], 0, "failed-read-then-polar-file"))
         jobs.append(([[POISON, "read"], [0, "cpp"], [1, "py"]], 0, "failed-read-then-polar-file"))
+        # a printing conversion (colours on) after string-returning ones: what is printed does not depend on them
+        jobs.append(([[0, "cpp"], [1, "cpp_print"]], 0, "printed-after-returned"))
+        jobs.append(([[2, "py"], [3, "py_print"], [4, "cpp_print"]], 0, "printed-after-returned"))
         for e in (["py", "cpp"] if ctx.quick else ENTRIES):
             jobs.append(([[3, e], [1, e]], 0, "spline-then-no-constants"))      # file 3 has spline constants, file 1 has no constant line at all
         if not ctx.quick:
